@@ -3,7 +3,7 @@
 #define C29_CONSTS
 #include "slices.h"
 #undef C29_CONSTS
-typedef struct { size_t n; int64_t total_weight; size_t distinct; bool consistent; const size_t* vin_size; const size_t* const* parent; } PackageView;
+typedef struct { size_t n; int64_t total_weight; size_t distinct; bool consistent; const size_t* vin_size; const size_t* const* parent; const bool* spent_by_last; } PackageView;
 typedef struct { size_t size; size_t first; } TxidSet;
 typedef struct { int mode_invalid; int result; uint32_t reason; } PackageValidationState;
 static inline bool PackageState_Invalid(PackageValidationState* state, int result, uint32_t reason) { state->result = result; state->reason = reason; state->mode_invalid = 1; return 0; }
@@ -19,6 +19,10 @@ static inline size_t TxidSet_erase_txid_of(TxidSet* s, const PackageView* p, siz
 bool xc_IsTopoSortedPackage(const PackageView* txns, TxidSet* later_txids);
 static inline bool IsTopoSortedPackage_stub(const PackageView* p, TxidSet* s) { return xc_IsTopoSortedPackage(p, s); }
 static inline bool IsConsistentPackage_stub(const PackageView* p) { return p->consistent; }
+typedef struct { size_t of_tx; } InputTxidSet;
+static inline InputTxidSet InputTxidSet_of(const PackageView* p, size_t tx) { InputTxidSet s = {tx}; return s; }
+static inline bool AllTxidsBelowAreIn(const PackageView* p, size_t below, const InputTxidSet* s) { for (size_t k = 0; k < below; k++) if (!p->spent_by_last[k]) return 0; return 1; }
+#define C29_F_CWP
 #define C29_F_TOPO
 #define C29_F_WF
 #include "slices.h"
